@@ -10,7 +10,11 @@ import OjgVerif.JPText.Expr
 * `Union.Append` writes string members without escaping;
 * `Nth.Append` negates with wrap-around;
 * `Equation.Append` decides the right operand's parentheses from the LEFT operand;
-* `Script.appendValue` parenthesises an operand only when its precedence number is strictly larger.
+* `Script.appendValue` parenthesises an operand only when its precedence number is strictly larger;
+* `AppendString` writes an undecodable byte as `\\ufffd`; with the `/` delimiter (regex constants) it
+  drops the backslash of an escape letter and does not escape `/`;
+* a `float64` constant is the bare `FormatFloat` text (no `.0` for an integral value).
+Each place is marked `DEVIATION (C14-…)` with the id of the known finding.
 -/
 namespace OjgVerif.JPText
 open OjgVerif
@@ -31,11 +35,12 @@ def appendStrBody (delim : UInt8) : Nat → Bytes → Bytes
       else if (decodeRune (b :: r)).1 = 0x2029 then
         92 :: 117 :: 50 :: 48 :: 50 :: 57 :: appendStrBody delim f (r.drop ((decodeRune (b :: r)).2 - 1))
       else if (decodeRune (b :: r)).1 = runeError then
+        -- DEVIATION (C14-utf8): also for an undecodable byte (width 1): lossy
         92 :: 117 :: 102 :: 102 :: 102 :: 100 :: appendStrBody delim f (r.drop ((decodeRune (b :: r)).2 - 1))
       else
         b :: (r.take ((decodeRune (b :: r)).2 - 1) ++ appendStrBody delim f (r.drop ((decodeRune (b :: r)).2 - 1)))
     else if delim ≠ 47 then 92 :: jCls b :: appendStrBody delim f r          -- escape letter after a backslash
-    else jCls b :: appendStrBody delim f r                                   -- regex: the letter alone
+    else jCls b :: appendStrBody delim f r       -- DEVIATION (C14-regex-text): the letter alone, `/` not escaped
 
 /-- `AppendString(buf, s, delim)` -/
 def appendString (s : Bytes) (delim : UInt8) : Bytes :=
@@ -56,7 +61,8 @@ def nthDigits : Nat → Int → Bytes → Bytes
     if i = 0 then acc
     else nthDigits f (Int.tdiv i 10) (UInt8.ofNat ((Int.tmod i 10 + 48) % 256).toNat :: acc)
 
-/-- `Nth.Append` (`i = -i` wraps for the least integer, the digit loop then sees a negative number) -/
+/-- `Nth.Append`. DEVIATION (C14-nth-minint): `i = -i` wraps for the least integer, the digit loop then
+sees a negative number -/
 def nthPrint (i : Int) : Bytes :=
   91 :: ((if i < 0 then [45] else []) ++
     ((if (if i < 0 then wrap64 (-i) else i) = 0 then [48]
@@ -73,7 +79,7 @@ def slicePrint : List Int → Bytes
   | a :: b :: c :: _ => 91 :: (sliceStart a ++ 58 :: (sliceEnd b ++ 58 :: (fmtInt c ++ [93])))
 
 def umemPrint : UMem → Bytes
-  | .key s => 39 :: (s ++ [39])         -- not escaped
+  | .key s => 39 :: (s ++ [39])         -- DEVIATION (C14-union-escape): not escaped
   | .idx i => fmtInt i
 
 def umemsPrint : List UMem → Bytes
@@ -97,6 +103,7 @@ deriving Inhabited
 def SItem.app (prec : Nat) : Option SItem → Bytes
   | none => [110, 117, 108, 108]
   | some (.txt b) => b
+  -- DEVIATION (C14-equal-prec): strictly larger only, also for a right operand
   | some (.pb p b) => if prec < p then 40 :: (b ++ [41]) else b
 
 /-- `Script.appendOp` -/
@@ -131,6 +138,7 @@ mutual
     | .child k => childPrint br first k
     | .nth i => nthPrint i
     | .wild h => if br || h then [91, 42, 93] else if first then [42] else [46, 42]
+    -- DEVIATION (C14-descent): one dot whatever follows; `[..]` is not accepted by the parser
     | .descent => if br then [91, 46, 46, 93] else [46]
     | .union ms => unionPrint ms
     | .slice ns => slicePrint ns
@@ -149,7 +157,7 @@ mutual
     | .nothing => bNothing
     | .bool b => if b then bTrue else bFalse
     | .int i => fmtInt i
-    | .flt t => t
+    | .flt t => t                        -- DEVIATION (C14-float-text): `2` for 2.0; NaN/Inf have no form
     | .str s => appendString s 39
     | .list vs => 91 :: (Val.printL vs ++ [93])
     | .expr x => Frag.printL false true x ++ (if lastIsDescent x then [46] else [])
@@ -217,7 +225,7 @@ def Eqn.print : Eqn → Bool → Option Bytes
        | _, _ => none
      else if isCode o Gen.JpOps.op_group then l.print (leftParens o l)
      else
-       -- the right operand's flag is computed from the LEFT operand
+       -- DEVIATION (C14-equation-parens): the right operand's flag is computed from the LEFT operand
        match l.print (leftParens o l), r.print (leftParens o l) with
        | some a, some b => some (a ++ 32 :: (o.name ++ 32 :: b))
        | _, _ => none).map (wrapParens (p && !noParensCode o))
